@@ -18,12 +18,13 @@ Theorem C07_ask_iff : forall e st sender funds id base quote price size st' r,
 Proof. exact create_ask_admission. Qed.
 Print Assumptions C07_ask_iff.
 
-(* bids, "only if" in exact terms (outside K_inexact): canonical id, sizes >= 1, valid price within precision, size a
+(* bids, "only if" in exact terms (any state satisfying the ask-side/config invariant; no numeric side condition:
+   lot-multiple products are always exact): canonical id, sizes >= 1, valid price within precision, size a
    multiple of the increment, price*size the whole number quote_size, fee = rate_fee(configured rate, total) in the
    quote denomination (absent iff it is 0), supported quote, the contract's base, attributes held, escrow exactly
    quote_size + fee as one coin or one pull transfer, id fresh on the bid side; recorded bid = request, nothing filled *)
 Theorem C07_bid_only_if : forall e st sender funds id base fee price quote qsize size st' r,
-  clean_exec st (CreateBid id base fee price quote qsize size) ->
+  InvA st ->
   execute FX e st sender funds (CreateBid id base fee price quote qsize size) = Ok (st', r) ->
   exists c p rate total calc,
     uuid_canonical id = true /\ 1 <= qsize /\ 1 <= size /\
